@@ -7,7 +7,7 @@
    [run_fun] at the end of the file.  Fuel is consumed ONLY by loop iterations and program-function calls,
    so an instrumented program and its original consume identical fuel. *)
 From Coq Require Import String List ZArith Bool Arith Setoid Morphisms.
-From DV Require Import Base.Util Hooks.Names Engine.Dispatch Py.Syntax Py.Ops Py.Instr.
+From DV Require Import Base.Util Hooks.Names Engine.Dispatch Engine.DispatchProofs Py.Syntax Py.Ops Py.Instr.
 Import ListNotations.
 Open Scope string_scope.
 Open Scope list_scope.
@@ -1150,14 +1150,11 @@ Section Sem.
                         else ret nx);
              match nx' with
              | None =>
-               (* exhaustion: with enter_for the exit is reported before the else clause runs (generator protocol) *)
-               (if cov "enter_for" then
+               (* exhaustion is reported before the else clause runs *)
+               (if cov "enter_for" || cov "normal_exit_for" then
                   announce true true n ;; ev "exit_control_flow" n [] ;; ev "exit_for" n [] ;; ev "normal_exit_for" n [] ;; ret tt
                 else ret tt) ;;
-               rexec_list k orelse ;;
-               (if negb (cov "enter_for") && cov "normal_exit_for" then
-                  announce true true n ;; ev "exit_control_flow" n [] ;; ev "exit_for" n [] ;; ev "normal_exit_for" n [] ;; ret tt
-                else ret tt)
+               rexec_list k orelse
              | Some v =>
                assign x v ;;
                do r <- catch (rexec_list k' body);
@@ -1916,7 +1913,7 @@ Section Sem.
          let body' := instr_ss H k' body in
          let orelse' := instr_ss H k orelse in
          if sel H "enter_for" then SFor n x (RGen n it') body' orelse'
-         else if sel H "normal_exit_for" then SFor n x it' body' (sapp orelse' (s1 (rstmt (REvent "_exit_for_" n))))
+         else if sel H "normal_exit_for" then SFor n x it' body' (Scons (rstmt (REvent "_exit_for_" n)) orelse')
          else SFor n x it' body' orelse').
       Proof. reflexivity. Qed.
       Lemma instr_STry k n body hs orelse final :
@@ -2053,9 +2050,7 @@ Section Sem.
                 else ret nx) (fun nx' =>
           match nx' with
           | None =>
-            bind (if cov "enter_for" then for_exit n else ret tt) (fun _ =>
-            bind (rexec_list k orelse) (fun _ =>
-            if negb (cov "enter_for") && cov "normal_exit_for" then for_exit n else ret tt))
+            bind (if cov "enter_for" || cov "normal_exit_for" then for_exit n else ret tt) (fun _ => rexec_list k orelse)
           | Some v =>
             bind (assign x v) (fun _ =>
             bind (catch (rexec_list {| r_loop := Some (n, true); r_fn := r_fn k |} body)) (fun r =>
@@ -2287,31 +2282,29 @@ Section Sem.
             assert (Hloop : forall j, meq (floop x (Some n) a0 a (instr_ss H (kc {| r_loop := Some (n, true); r_fn := r_fn k |}) body) (instr_ss H (kc k) orelse) j)
                                           (rfloop k n x a0 a body orelse j)); [|apply Hloop].
             induction j as [|j IHj]; [reflexivity|].
-            cbn [floop rfloop]. rewrite C1. cbn [negb andb].
+            cbn [floop rfloop]. rewrite C1. cbn [orb].
             apply for_step.
-            * rewrite IHo. rewrite <- (bind_ret_r (rexec_list k orelse)) at 1. mstep.
-              match goal with u : unit |- _ => destruct u end; reflexivity.
+            * exact IHo.
             * intros v. mstep. rewrite IHb. mstep.
               match goal with r : res unit |- _ => destruct r end; try reflexivity; apply IHj.
           + destruct (instr_not_gen it c0 Hs1) as [G1 G2]. rewrite G1, G2.
             change c0 with (ic rc0). rewrite (RE_ it Hs1 Ho1 rc0). mstep. mstep.
             assert (Hloop : forall j, meq (floop x None a0 a (instr_ss H (kc {| r_loop := Some (n, true); r_fn := r_fn k |}) body)
-                                                 (sapp (instr_ss H (kc k) orelse) (s1 (rstmt (REvent "_exit_for_" n)))) j)
+                                                 (Scons (rstmt (REvent "_exit_for_" n)) (instr_ss H (kc k) orelse)) j)
                                           (rfloop k n x a0 a body orelse j)); [|apply Hloop].
             induction j as [|j IHj]; [reflexivity|].
-            cbn [floop rfloop]. rewrite C1, C2. unfold for_next. mstep. rewrite bind_ret_l. destruct a1 as [v|].
+            cbn [floop rfloop]. rewrite C1, C2. cbn [orb]. unfold for_next. mstep. rewrite bind_ret_l. destruct a1 as [v|].
             * mstep. rewrite IHb. mstep. match goal with r : res unit |- _ => destruct r end; try reflexivity; apply IHj.
-            * rewrite bind_ret_l. cbn [negb andb]. rewrite exec_list_app, IHo. mstep. unfold s1, rstmt.
-              rewrite exec_list_cons, exec_list_nil. Transparent exec. cbn [exec]. Opaque exec. rewrite bind_assoc. setoid_rewrite bind_ret_l. apply Hev.
+            * unfold rstmt. rewrite exec_list_cons. Transparent exec. cbn [exec]. Opaque exec.
+              apply bind_cong; [exact Hev|intros ?; exact IHo].
           + destruct (instr_not_gen it c0 Hs1) as [G1 G2]. rewrite G1, G2.
             change c0 with (ic rc0). rewrite (RE_ it Hs1 Ho1 rc0). mstep. mstep.
             assert (Hloop : forall j, meq (floop x None a0 a (instr_ss H (kc {| r_loop := Some (n, true); r_fn := r_fn k |}) body) (instr_ss H (kc k) orelse) j)
                                           (rfloop k n x a0 a body orelse j)); [|apply Hloop].
             induction j as [|j IHj]; [reflexivity|].
-            cbn [floop rfloop]. rewrite C1, C2. unfold for_next. mstep. rewrite bind_ret_l. destruct a1 as [v|].
+            cbn [floop rfloop]. rewrite C1, C2. cbn [orb]. unfold for_next. mstep. rewrite bind_ret_l. destruct a1 as [v|].
             * mstep. rewrite IHb. mstep. match goal with r : res unit |- _ => destruct r end; try reflexivity; apply IHj.
-            * rewrite bind_ret_l. cbn [negb andb]. rewrite IHo. rewrite <- (bind_ret_r (rexec_list k orelse)) at 1. mstep.
-              match goal with u : unit |- _ => destruct u end; reflexivity.
+            * rewrite bind_ret_l. exact IHo.
         - (* SBreak *) intros n _ _ k. cbn [instr_s]. Transparent rexec. cbn [rexec]. Opaque rexec. unfold rbrk.
           change (loop (kc k)) with (match r_loop k with Some (l, isfor) => Some (l, if isfor then 1%Z else 0%Z) | None => None end).
           destruct (r_loop k) as [[l ty]|]; [|reflexivity].
@@ -3006,12 +2999,8 @@ Section Sem.
           sb (exact Hnx). destruct b2 as [v|].
           + sb (apply sim_assign). sb (apply sim_catch; apply IHb; assumption).
             loop_tail IHj.
-          + eapply sim_quiet_l with (a := tt); [destruct (cov "enter_for"); [apply for_exit_quiet|apply quiet_ret]|]. cbv beta.
-            apply sim_meq_r with (m2' := bind (exec_list callo bound orelse) (fun _ => ret tt)).
-            { symmetry. rewrite <- (bind_ret_r (exec_list callo bound orelse)) at 2. apply bind_cong; [reflexivity|intros []; reflexivity]. }
-            sb (apply IHo; assumption).
-            apply sim_quiet_only with (a := tt); [|reflexivity].
-            destruct (negb (cov "enter_for") && cov "normal_exit_for"); [apply for_exit_quiet|apply quiet_ret].
+          + eapply sim_quiet_l with (a := tt); [destruct (cov "enter_for" || cov "normal_exit_for"); [apply for_exit_quiet|apply quiet_ret]|]. cbv beta.
+            apply IHo; assumption.
         - (* SBreak *) intros n _ _ k. Transparent rexec exec. cbn [rexec exec]. Opaque rexec exec. unfold rbrk.
           destruct (r_loop k) as [[l ty]|]; [|apply sim_const; exact I].
           destruct (cov "_break"); [|apply sim_const; exact I].
@@ -3328,6 +3317,768 @@ Section Sem.
         + eapply sim_quiet_l with (a := tt); [destruct wrapped; qq|]. cbv beta. eapply sim_meq_r; [apply bind_ret_l|]. apply sim_raise.
     Qed.
   End RunTransparency.
+
+  (* ================================================================ what a hook receives does not depend on the other hooks
+     For a leaf hook h and two hook selections that both contain h: under analyses whose hooks return nothing the
+     reference semantics of a source program delivers to h the same sequence of events (analysis index, arguments)
+     and behaves the same.  (C08 for the reference semantics; the instrumented program equals the reference
+     semantics by the refinement theorem.) *)
+  Section HookIndependence.
+    Variable h : string.
+    Hypothesis observing_all : Forall (observing earg) analyses.
+    (* h is a leaf hook of a construct: not one of the generic names that every covered construct reports to, and not an
+       execution-level hook (those depend on whether the module was wrapped at all) *)
+    Definition generic_names : list string :=
+      ["runtime_event"; "control_flow_event"; "operation"; "binary_operation"; "unary_operation"; "comparison"; "literal";
+       "memory_access"; "read"; "enter_control_flow"; "exit_control_flow"; "exit_for"; "exit_while"; "augmented_assignment"; "function_exit";
+       "begin_execution"; "end_execution"; "uncaught_exception"].
+    Hypothesis h_leaf : mem_str h generic_names = false.
+    (* building a list is not a program-visible effect, and tuple(list) is the tuple of the elements *)
+    Variable mkl : list val -> val.
+    Hypothesis mklist_pure : forall l w0, p_mklist l w0 = (mkl l, w0).
+    Hypothesis tuple_of_list_spec : forall l w0, p_tuple_of_list (mkl l) w0 = p_mktuple l w0.
+    Hypothesis truth_bool : forall b w0, p_truth (p_const (KBool b)) w0 = (POk b, w0).
+
+    Definition hproj (s : st) : list (delivery earg) := filter (fun d => String.eqb (d_hook d) h) (dels (eng s)).
+    Definition heq (s1 s2 : st) : Prop := beq s1 s2 /\ hproj s1 = hproj s2.
+    Definition sim2 {A B} (R : A -> B -> Prop) (m1 : M A) (m2 : M B) : Prop :=
+      forall s1 s2, heq s1 s2 -> rres R (fst (m1 s1)) (fst (m2 s2)) /\ heq (snd (m1 s1)) (snd (m2 s2)).
+    (* a computation that only reports to hooks other than h *)
+    Definition hquiet {A} (m : M A) (a : A) : Prop :=
+      forall s, fst (m s) = Ok a /\ beq (snd (m s)) s /\ hproj (snd (m s)) = hproj s.
+
+    Lemma heq_refl s : heq s s. Proof. split; [apply beq_refl|reflexivity]. Qed.
+
+    Lemma sim2_ret {A B} (R : A -> B -> Prop) a b : R a b -> sim2 R (ret a) (ret b).
+    Proof. intros HR s1 s2 Hb. split; [exact HR|exact Hb]. Qed.
+    Lemma sim2_bind {A B C D0} (R : A -> B -> Prop) (Q : C -> D0 -> Prop) m1 m2 k1 k2 :
+      sim2 R m1 m2 -> (forall a b, R a b -> sim2 Q (k1 a) (k2 b)) -> sim2 Q (bind m1 k1) (bind m2 k2).
+    Proof.
+      intros Hm Hk s1 s2 Hb. unfold bind. specialize (Hm s1 s2 Hb).
+      destruct (m1 s1) as [r1 s1'], (m2 s2) as [r2 s2']. cbn [fst snd] in Hm. destruct Hm as [Hr Hs].
+      destruct r1, r2; cbn [rres] in Hr; try contradiction; try (split; [exact Hr|exact Hs]).
+      apply Hk; assumption.
+    Qed.
+    Lemma sim2_hquiet_l {A B C} (R : B -> C -> Prop) (m : M A) a k m2 :
+      hquiet m a -> sim2 R (k a) m2 -> sim2 R (bind m k) m2.
+    Proof.
+      intros Hq Hk s1 s2 [Hb Hp]. unfold bind. specialize (Hq s1). destruct (m s1) as [r s1']. cbn [fst snd] in Hq.
+      destruct Hq as [-> [Hs Hh]]. apply Hk. split; [eapply beq_trans; eassumption|congruence].
+    Qed.
+    Lemma sim2_hquiet_r {A B C} (R : B -> C -> Prop) (m : M A) a k m1 :
+      hquiet m a -> sim2 R m1 (k a) -> sim2 R m1 (bind m k).
+    Proof.
+      intros Hq Hk s1 s2 [Hb Hp]. unfold bind. specialize (Hq s2). destruct (m s2) as [r s2']. cbn [fst snd] in Hq.
+      destruct Hq as [-> [Hs Hh]]. apply Hk. split; [eapply beq_trans; [exact Hb|apply beq_sym; exact Hs]|congruence].
+    Qed.
+    Lemma sim2_bind_l {A B C} (R' : A -> B -> Prop) (R : C -> B -> Prop) m1 m2 k :
+      sim2 R' m1 m2 -> (forall a b, R' a b -> sim2 R (k a) (ret b)) -> sim2 R (bind m1 k) m2.
+    Proof.
+      intros Hm Hk s1 s2 Hb. unfold bind. specialize (Hm s1 s2 Hb).
+      destruct (m1 s1) as [r1 s1'] eqn:E1. destruct (m2 s2) as [r2 s2'] eqn:E2. cbn [fst snd] in Hm. destruct Hm as [Hr Hs].
+      destruct r1, r2; cbn [rres] in Hr; try contradiction; try (split; [exact Hr|exact Hs]).
+      match goal with Hr' : R' ?x ?y |- _ => specialize (Hk x y Hr' s1' s2' Hs) end. cbn [ret fst snd] in Hk. exact Hk.
+    Qed.
+    Lemma sim2_bind_r {A B C} (R' : A -> B -> Prop) (R : A -> C -> Prop) m1 m2 k :
+      sim2 R' m1 m2 -> (forall a b, R' a b -> sim2 R (ret a) (k b)) -> sim2 R m1 (bind m2 k).
+    Proof.
+      intros Hm Hk s1 s2 Hb. unfold bind. specialize (Hm s1 s2 Hb).
+      destruct (m1 s1) as [r1 s1'] eqn:E1. destruct (m2 s2) as [r2 s2'] eqn:E2. cbn [fst snd] in Hm. destruct Hm as [Hr Hs].
+      destruct r1, r2; cbn [rres] in Hr; try contradiction; try (split; [exact Hr|exact Hs]).
+      match goal with Hr' : R' ?x ?y |- _ => specialize (Hk x y Hr' s1' s2' Hs) end. cbn [ret fst snd] in Hk. exact Hk.
+    Qed.
+    Lemma sim2_meq_l {A B} (R : A -> B -> Prop) m m' m2 : meq m m' -> sim2 R m' m2 -> sim2 R m m2.
+    Proof. intros E Hs s1 s2 Hb. rewrite (E s1). apply Hs; exact Hb. Qed.
+    Lemma sim2_meq_r {A B} (R : A -> B -> Prop) m m2 m2' : meq m2 m2' -> sim2 R m m2' -> sim2 R m m2.
+    Proof. intros E Hs s1 s2 Hb. rewrite (E s2). apply Hs; exact Hb. Qed.
+
+    Lemma hquiet_ret {A} (a : A) : hquiet (ret a) a.
+    Proof. intros s. split; [reflexivity|split; [apply beq_refl|reflexivity]]. Qed.
+    Lemma hquiet_bind {A B} (m : M A) a (k : A -> M B) b : hquiet m a -> hquiet (k a) b -> hquiet (bind m k) b.
+    Proof.
+      intros Hm Hk s. unfold bind. specialize (Hm s). destruct (m s) as [r s']. cbn [fst snd] in Hm. destruct Hm as [-> [Hs Hh]].
+      specialize (Hk s'). destruct Hk as [E [Hs' Hh']]. split; [exact E|split; [eapply beq_trans; eassumption|congruence]].
+    Qed.
+
+    (* the engine: what one notification appends *)
+    Lemma notify_state f args s :
+      fst (notify f args s) = Ok None
+      /\ beq (snd (notify f args s)) s
+      /\ dels (eng (snd (notify f args s))) =
+         dels (eng s) ++ map (DispatchProofs.mkd earg f args) (DispatchProofs.sel earg e_filt_str 0 analyses f args).
+    Proof.
+      Transparent notify. unfold notify.
+      pose proof (call_if_exists_observing earg e_filt_str e_as_path e_is_iid line_of analyses f args (eng s) observing_all) as E.
+      pose proof (cie_loop_dels earg e_filt_str e_as_path e_is_iid line_of analyses 0 f args (eng s) None) as [Dl _].
+      unfold call_if_exists in *.
+      destruct (cie_loop earg e_filt_str e_as_path e_is_iid line_of 0 analyses f args (eng s) None) as [r e'].
+      cbn [fst snd] in *. subst r. split; [reflexivity|]. split; [repeat split|exact Dl]. Opaque notify.
+    Qed.
+    Lemma filter_mkd_other f args l : String.eqb f h = false ->
+      filter (fun d : delivery earg => String.eqb (d_hook d) h) (map (DispatchProofs.mkd earg f args) l) = [].
+    Proof. intros E. induction l as [|i r IH]; [reflexivity|]. cbn. rewrite E. exact IH. Qed.
+    Lemma hquiet_notify f args : String.eqb f h = false -> hquiet (notify f args) None.
+    Proof.
+      intros E s. destruct (notify_state f args s) as [A [B Dl]]. split; [exact A|split; [exact B|]].
+      unfold hproj. rewrite Dl, filter_app, filter_mkd_other, app_nil_r; [reflexivity|exact E].
+    Qed.
+    Lemma sim2_notify f args : sim2 (fun a b => a = None /\ b = None) (notify f args) (notify f args).
+    Proof.
+      intros s1 s2 [Hb Hp]. destruct (notify_state f args s1) as [A1 [B1 D1]]. destruct (notify_state f args s2) as [A2 [B2 D2]].
+      rewrite A1, A2. split; [cbn; auto|]. split.
+      - eapply beq_trans; [exact B1|]. eapply beq_trans; [exact Hb|apply beq_sym; exact B2].
+      - unfold hproj in *. rewrite D1, D2, !filter_app, Hp. reflexivity.
+    Qed.
+
+    (* operations on the program-visible state leave the engine alone *)
+    Lemma vis2 {A} (m : M A) : sim eq m m -> (forall s, eng (snd (m s)) = eng s) -> sim2 eq m m.
+    Proof.
+      intros Hs He s1 s2 [Hb Hp]. destruct (Hs s1 s2 Hb) as [Hr Hb']. split; [exact Hr|]. split; [exact Hb'|].
+      unfold hproj. rewrite (He s1), (He s2). exact Hp.
+    Qed.
+    Lemma eng_prim {A} (p : world -> pres A * world) s : eng (snd (prim p s)) = eng s.
+    Proof. Transparent prim. unfold prim. destruct (p (w s)) as [r w']. destruct r; reflexivity. Opaque prim. Qed.
+    Lemma eng_prim_total {A} (p : world -> A * world) s : eng (snd (prim_total p s)) = eng s.
+    Proof. Transparent prim_total. unfold prim_total. destruct (p (w s)) as [r w']. reflexivity. Opaque prim_total. Qed.
+    Lemma eng_raise_builtin {A} c m s : eng (snd (@raise_builtin A c m s)) = eng s.
+    Proof.
+      Transparent raise_builtin prim_total. unfold raise_builtin, bind, prim_total, raise. destruct (p_exc c m (w s)). reflexivity.
+      Opaque raise_builtin prim_total.
+    Qed.
+    Lemma eng_lookup x s : eng (snd (lookup x s)) = eng s.
+    Proof.
+      Transparent lookup. unfold lookup. destruct (frames s) as [|fr r].
+      - destruct (alookup x (genv s)); [reflexivity|apply eng_raise_builtin].
+      - destruct (mem_str x (lnames fr)); [destruct (alookup x (locals fr))|destruct (alookup x (genv s))];
+          first [reflexivity|apply eng_raise_builtin].
+      Opaque lookup.
+    Qed.
+    Lemma eng_assign x v s : eng (snd (assign x v s)) = eng s.
+    Proof. unfold assign. destruct (frames s) as [|fr r]; [|destruct (mem_str x (lnames fr))]; reflexivity. Qed.
+    Lemma eng_unbind x s : eng (snd (unbind x s)) = eng s.
+    Proof. unfold unbind. destruct (frames s) as [|fr r]; [|destruct (mem_str x (lnames fr))]; reflexivity. Qed.
+
+    Lemma s2_prim {A} (p : world -> pres A * world) : sim2 eq (prim p) (prim p).
+    Proof. apply vis2; [apply sim_prim|apply eng_prim]. Qed.
+    Lemma s2_prim_total {A} (p : world -> A * world) : sim2 eq (prim_total p) (prim_total p).
+    Proof. apply vis2; [apply sim_prim_total|apply eng_prim_total]. Qed.
+    Lemma s2_truth v : sim2 eq (truth v) (truth v).
+    Proof. Transparent truth. unfold truth. Opaque truth. apply s2_prim. Qed.
+    Lemma s2_lookup x : sim2 eq (lookup x) (lookup x).
+    Proof. apply vis2; [apply sim_lookup|apply eng_lookup]. Qed.
+    Lemma s2_assign x v : sim2 eq (assign x v) (assign x v).
+    Proof. apply vis2; [apply sim_assign|apply eng_assign]. Qed.
+    Lemma s2_unbind x : sim2 eq (unbind x) (unbind x).
+    Proof. apply vis2; [apply sim_unbind|apply eng_unbind]. Qed.
+    Lemma s2_push_exc e : sim2 eq (push_exc e) (push_exc e).
+    Proof. apply vis2; [apply sim_push_exc|reflexivity]. Qed.
+    Lemma s2_pop_exc : sim2 eq pop_exc pop_exc.
+    Proof. apply vis2; [apply sim_pop_exc|reflexivity]. Qed.
+    Lemma s2_cur_exc : sim2 eq cur_exc cur_exc.
+    Proof. apply vis2; [apply sim_cur_exc|reflexivity]. Qed.
+    Lemma s2_raise {A B} (R : A -> B -> Prop) e : sim2 R (raise e) (raise e).
+    Proof. intros s1 s2 Hb. split; [reflexivity|exact Hb]. Qed.
+    Lemma s2_raise_builtin {A B} (R : A -> B -> Prop) c m : sim2 R (raise_builtin c m) (raise_builtin c m).
+    Proof.
+      Transparent raise_builtin. unfold raise_builtin. Opaque raise_builtin.
+      eapply sim2_bind; [apply s2_prim_total|]. intros a b ->. apply s2_raise.
+    Qed.
+    Lemma s2_const {A B} (R : A -> B -> Prop) (r1 : res A) (r2 : res B) : rres R r1 r2 ->
+      sim2 R (fun s => (r1, s)) (fun s => (r2, s)).
+    Proof. intros Hr s1 s2 Hb. split; [exact Hr|exact Hb]. Qed.
+    Lemma s2_reraise {A B} (R : A -> B -> Prop) (r1 : res A) (r2 : res B) : rres R r1 r2 -> sim2 R (reraise r1) (reraise r2).
+    Proof. apply s2_const. Qed.
+    Lemma s2_stuck {A B} (R : A -> B -> Prop) y : sim2 R (stuck y) (stuck y).
+    Proof. intros s1 s2 Hb. split; [reflexivity|exact Hb]. Qed.
+    Lemma s2_catch {A B} (R : A -> B -> Prop) m1 m2 : sim2 R m1 m2 -> sim2 (rres R) (catch m1) (catch m2).
+    Proof.
+      intros Hm s1 s2 Hb. unfold catch. specialize (Hm s1 s2 Hb).
+      destruct (m1 s1) as [r1 s1'], (m2 s2) as [r2 s2']. cbn [fst snd] in Hm. destruct Hm as [Hr Hs].
+      destruct r1, r2; cbn [rres] in Hr; try contradiction; (split; [cbn; try exact Hr; try exact I|exact Hs]).
+    Qed.
+
+    (* events *)
+    Lemma gen_ne g : mem_str g generic_names = true -> String.eqb g h = false.
+    Proof.
+      intros Hin. destruct (String.eqb_spec g h) as [->|]; [|reflexivity]. rewrite h_leaf in Hin. discriminate Hin.
+    Qed.
+    Lemma cov_ne Hs x : cov Hs h = true -> cov Hs x = false -> String.eqb x h = false.
+    Proof. intros A B. destruct (String.eqb_spec x h) as [->|]; [congruence|reflexivity]. Qed.
+    Lemma cov_us_ne Hs x : cov Hs h = true -> cov_us Hs x = false -> String.eqb x h = false.
+    Proof. unfold cov_us. intros A B. apply orb_false_iff in B. destruct B as [B _]. exact (cov_ne Hs x A B). Qed.
+    Lemma hquiet_ev f n args : String.eqb f h = false -> hquiet (ev f n args) None.
+    Proof. Transparent ev. unfold ev. Opaque ev. apply hquiet_notify. Qed.
+    Lemma s2_ev f n args : sim2 (fun a b => a = None /\ b = None) (ev f n args) (ev f n args).
+    Proof. Transparent ev. unfold ev. Opaque ev. apply sim2_notify. Qed.
+    Lemma hquiet_RE n : hquiet (RE n) tt.
+    Proof.
+      Transparent RE. unfold RE. Opaque RE. eapply hquiet_bind; [apply hquiet_ev, gen_ne; reflexivity|apply hquiet_ret].
+    Qed.
+    Lemma hquiet_CF n : hquiet (CF n) tt.
+    Proof.
+      Transparent CF. unfold CF. Opaque CF. eapply hquiet_bind; [apply hquiet_ev, gen_ne; reflexivity|apply hquiet_ret].
+    Qed.
+    Lemma hquiet_announce on cf n : hquiet (announce on cf n) tt.
+    Proof.
+      Transparent announce. unfold announce. Opaque announce.
+      destruct on; [|apply hquiet_ret]. eapply hquiet_bind; [apply hquiet_RE|]. destruct cf; [apply hquiet_CF|apply hquiet_ret].
+    Qed.
+
+    Lemma hquiet_mklist l : hquiet (bind (prim_total (p_mklist l)) (fun _ => ret tt)) tt.
+    Proof.
+      intros s. rewrite (bind_cong _ _ _ _ (mklist_ret mkl mklist_pure l) (fun _ => meq_refl _) s).
+      split; [reflexivity|split; [apply beq_refl|reflexivity]].
+    Qed.
+
+    Lemma hquiet_mklist' l : hquiet (prim_total (p_mklist l)) (mkl l).
+    Proof.
+      intros s. rewrite (mklist_ret mkl mklist_pure l s). split; [reflexivity|split; [apply beq_refl|reflexivity]].
+    Qed.
+
+    (* ---- two hook selections that both contain h, two callee semantics that are related *)
+    Variables H1 H2 : list string.
+    Hypothesis h_in1 : cov H1 h = true.
+    Hypothesis h_in2 : cov H2 h = true.
+    Variables call1 call2 : nat -> list val -> M val.
+    Variable bound : nat.
+    Hypothesis Hcalls : forall f a, sim2 eq (call1 f a) (call2 f a).
+
+    Ltac stop2 := repeat match goal with
+      | |- sim2 _ (bind (bind ?m ?k) ?h0) _ => eapply sim2_meq_l; [apply bind_assoc|]; cbv beta
+      | |- sim2 _ (bind (ret ?a) ?k) _ => eapply sim2_meq_l; [apply bind_ret_l|]; cbv beta
+      | |- sim2 _ _ (bind (bind ?m ?k) ?h0) => eapply sim2_meq_r; [apply bind_assoc|]; cbv beta
+      | |- sim2 _ _ (bind (ret ?a) ?k) => eapply sim2_meq_r; [apply bind_ret_l|]; cbv beta
+      end.
+    (* the name of an event is not h: a generic name, or a leaf that one of the two selections does not contain *)
+    Ltac nh := first [ apply gen_ne; reflexivity
+                     | eapply (cov_ne H1); [exact h_in1|eassumption]
+                     | eapply (cov_ne H2); [exact h_in2|eassumption]
+                     | eapply (cov_us_ne H1); [exact h_in1|eassumption]
+                     | eapply (cov_us_ne H2); [exact h_in2|eassumption] ].
+    Ltac hq1 := first [ apply hquiet_announce | apply hquiet_RE | apply hquiet_CF | apply hquiet_mklist | apply hquiet_mklist' | apply hquiet_ret | apply hquiet_ev; nh | apply hquiet_notify; nh ].
+    Ltac hql := (eapply sim2_hquiet_l; [hq1|]); cbv beta.
+    Ltac hqr := (eapply sim2_hquiet_r; [hq1|]); cbv beta.
+    Ltac norm2 := stop2; repeat (progress cbn [fst snd sel3 sel2]; stop2).
+    Ltac hs := repeat (norm2; first [hql | hqr]); norm2.
+    Ltac same_ev := (eapply sim2_bind; [apply s2_ev|intros ? ? [? ?]; subst]); cbv beta.
+    Tactic Notation "sb2" tactic3(t) := (eapply sim2_bind; [t|intros ? ? ?; try subst]); cbv beta.
+    Ltac fin := apply sim2_ret; reflexivity.
+    (* events of one covered construct: strip what is not for h, match what may be *)
+    Ltac evs := repeat (hs; try same_ev).
+
+    Notation tvr2 := (@eq (val * bool)%type).
+
+    Lemma tv_default2 c e : jumpy e = false -> sim2 eq (reval H1 call1 c e) (reval H2 call2 c e) ->
+      sim2 tvr2 (reval_tv H1 call1 c e) (reval_tv H2 call2 c e).
+    Proof.
+      intros Hj E. rewrite !reval_tv_unfold. rewrite <- !reval_unfold.
+      destruct e; try discriminate Hj; try (destruct o; try discriminate Hj);
+        (sb2 (exact E); sb2 (apply s2_truth); apply sim2_ret; reflexivity).
+    Qed.
+
+    Lemma reval_tv_nonjumpy Hs cl c e : jumpy e = false ->
+      meq (reval_tv Hs cl c e) (bind (reval Hs cl c e) (fun v => bind (truth v) (fun b => ret (v, b)))).
+    Proof.
+      intros J. rewrite reval_tv_unfold, reval_unfold.
+      destruct e; try discriminate J; try (destruct o; try discriminate J); apply meq_refl.
+    Qed.
+    Ltac tvx J := try (eapply sim2_meq_l; [apply bind_cong; [apply (reval_tv_nonjumpy H1 call1 _ _ J)|intros ?; apply meq_refl]|]);
+                  try (eapply sim2_meq_r; [apply bind_cong; [apply (reval_tv_nonjumpy H2 call2 _ _ J)|intros ?; apply meq_refl]|]).
+
+    Lemma rnot2 n v t : sim2 tvr2 (rnot_events H1 n v t) (rnot_events H2 n v t).
+    Proof.
+      Transparent rnot_events. unfold rnot_events. Opaque rnot_events.
+      destruct (cov_us H1 (snake (unop_cls UNot))) eqn:C1, (cov_us H2 (snake (unop_cls UNot))) eqn:C2; evs; fin.
+    Qed.
+
+    Ltac flags := repeat match goal with
+                         | |- context [cov_us ?Hs ?x] => let E := fresh "C" in destruct (cov_us Hs x) eqn:E
+                         | |- context [cov ?Hs ?x] => let E := fresh "C" in destruct (cov Hs x) eqn:E
+                         end; cbn [andb orb negb].
+    Ltac basic := first [ eassumption | apply s2_prim | apply s2_prim_total | apply s2_truth | apply s2_lookup | apply rnot2 ].
+    Tactic Notation "sl2" tactic3(t) := (eapply sim2_bind_l; [t|intros ? ? ?; try subst]); cbv beta.
+    Tactic Notation "sr2" tactic3(t) := (eapply sim2_bind_r; [t|intros ? ? ?; try subst]); cbv beta.
+    Ltac auto2 := repeat (hs; first [ fin | same_ev | sb2 basic | basic | sl2 basic | sr2 basic
+                                    | match goal with |- sim2 _ (if ?b then _ else _) (if ?b then _ else _) => destruct b end
+                                    | match goal with |- sim2 _ (bind (if ?b then _ else _) _) (bind (if ?b then _ else _) _) => destruct b end
+                                    | match goal with |- sim2 _ (bind (if ?b then _ else _) _) (if ?b then _ else _) => destruct b end
+                                    | match goal with |- sim2 _ (if ?b then _ else _) (bind (if ?b then _ else _) _) => destruct b end
+                                    | match goal with |- context [match ?p with pair _ _ => _ end] => is_var p; destruct p end ]).
+
+    Fixpoint links_h (r : cmps) : bool :=
+      match r with Cnil => false | Ccons o _ rest => String.eqb (snake (cmpop_cls o)) h || links_h rest end.
+    Lemma links_cov Hs r : cov Hs h = true -> links_h r = true -> cmps_cov Hs r = true.
+    Proof.
+      intros Hh. induction r as [|o e rest IH]; cbn; [discriminate|]. intros E. apply orb_true_iff in E. destruct E as [E|E].
+      - apply String.eqb_eq in E. rewrite E, Hh. reflexivity.
+      - rewrite (IH E). apply orb_true_r.
+    Qed.
+
+    Theorem hi_expr :
+      (forall e, src_e e = true -> forall c,
+          sim2 eq (reval H1 call1 c e) (reval H2 call2 c e) /\ sim2 tvr2 (reval_tv H1 call1 c e) (reval_tv H2 call2 c e))
+      /\ (forall es, src_es es = true -> forall c, sim2 eq (reval_list H1 call1 c es) (reval_list H2 call2 c es))
+      /\ (forall r, src_c r = true -> forall c n on1 on2 ann first l, (on1 = on2 \/ links_h r = false) ->
+            sim2 eq (reval_cmps H1 call1 c n on1 ann first l r) (reval_cmps H2 call2 c n on2 ann first l r))
+      /\ (forall r : rcmps, True).
+    Proof.
+      apply expr_all_ind; try (intros; discriminate); try (intros; exact I).
+      - (* EConst *) intros n k _ c.
+        assert (E : sim2 eq (reval H1 call1 c (EConst n k)) (reval H2 call2 c (EConst n k))).
+        { rewrite !reval_unfold. cbn [reval_body]. destruct k; unfold const_cov; cbn [const_hook lit_hook]; destruct (r_tgt c), (r_str c); flags; auto2. }
+        split; [exact E|apply tv_default2; [reflexivity|exact E]].
+      - (* EName *) intros n x b _ c.
+        assert (E : sim2 eq (reval H1 call1 c (EName n x b)) (reval H2 call2 c (EName n x b))).
+        { rewrite !reval_unfold. cbn [reval_body]. unfold name_cov.
+          destruct (negb (mem_str x _)), (negb (r_tgt c)), b; cbn [andb]; flags; auto2. }
+        split; [exact E|apply tv_default2; [reflexivity|exact E]].
+      - (* EUn *) intros n o a IHa Hs c. simpl in Hs. destruct (IHa Hs c) as [A1 A2].
+        assert (E : sim2 eq (reval H1 call1 c (EUn n o a)) (reval H2 call2 c (EUn n o a))).
+        { rewrite !reval_unfold. cbn [reval_body]. destruct o; flags; auto2. }
+        split; [exact E|]. destruct o; try (apply tv_default2; [reflexivity|exact E]).
+        rewrite (reval_tv_unfold H1 call1 c (EUn n UNot a)), (reval_tv_unfold H2 call2 c (EUn n UNot a)). auto2.
+      - (* EBin *) intros n o a IHa b IHb Hs c. simpl in Hs. apply andb_true_iff in Hs; destruct Hs as [Hs1 Hs2].
+        destruct (IHa Hs1 (rc_str c)) as [A1 A2]. destruct (IHb Hs2 (rc_str c)) as [B1 B2].
+        assert (E : sim2 eq (reval H1 call1 c (EBin n o a b)) (reval H2 call2 c (EBin n o a b))).
+        { rewrite !reval_unfold. cbn [reval_body]. flags; auto2. }
+        split; [exact E|apply tv_default2; [reflexivity|exact E]].
+      - (* EBool *) intros n o a IHa b IHb Hs c. simpl in Hs. apply andb_true_iff in Hs; destruct Hs as [Hs1 Hs2].
+        destruct (IHa Hs1 c) as [A1 A2]. destruct (IHb Hs2 c) as [B1 B2]. split.
+        + rewrite !reval_unfold. cbn [reval_body]. destruct o; flags; auto2.
+        + rewrite (reval_tv_unfold H1 call1 c (EBool n o a b)), (reval_tv_unfold H2 call2 c (EBool n o a b)). cbv zeta.
+          destruct o; flags; hs; sb2 (exact A2);
+            match goal with x : (val * bool)%type |- _ => destruct x as [l t]; destruct t; cbn [negb] end; auto2.
+      - (* ECmp *) intros n a IHa r IHr Hs c. simpl in Hs. apply andb_true_iff in Hs; destruct Hs as [Hs1 Hs2].
+        destruct (IHa Hs1 c) as [A1 A2]. specialize (IHr Hs2 c).
+        assert (E : sim2 eq (reval H1 call1 c (ECmp n a r)) (reval H2 call2 c (ECmp n a r))).
+        { rewrite !reval_unfold. cbn [reval_body]. sb2 (exact A1). apply IHr.
+          destruct (links_h r) eqn:L; [left; rewrite !links_cov by assumption; reflexivity|right; reflexivity]. }
+        split; [exact E|apply tv_default2; [reflexivity|exact E]].
+      - (* EIfExp *) intros n t IHt a IHa b IHb Hs c. simpl in Hs. apply andb_true_iff in Hs; destruct Hs as [Hs12 Hs3].
+        apply andb_true_iff in Hs12; destruct Hs12 as [Hs1 Hs2].
+        destruct (IHt Hs1 c) as [T1 T2]. destruct (IHa Hs2 c) as [A1 A2]. destruct (IHb Hs3 c) as [B1 B2]. split.
+        + rewrite (reval_unfold H1 call1 c (EIfExp n t a b)), (reval_unfold H2 call2 c (EIfExp n t a b)). cbn [reval_body].
+          destruct (jumpy t) eqn:J; flags; [auto2..| | | |]; tvx J; auto2.
+        + rewrite (reval_tv_unfold H1 call1 c (EIfExp n t a b)), (reval_tv_unfold H2 call2 c (EIfExp n t a b)). cbv zeta.
+          rewrite <- !reval_unfold. destruct (jumpy t) eqn:J; flags; tvx J; auto2.
+      - (* EAttr *) intros n a IHa x Hs c. simpl in Hs. destruct (IHa Hs c) as [A1 A2].
+        assert (E : sim2 eq (reval H1 call1 c (EAttr n a x)) (reval H2 call2 c (EAttr n a x))).
+        { rewrite (reval_unfold H1 call1 c (EAttr n a x)), (reval_unfold H2 call2 c (EAttr n a x)). cbn [reval_body].
+          destruct (negb (r_tgt c)); flags; auto2. }
+        split; [exact E|apply tv_default2; [reflexivity|exact E]].
+      - (* ESub *) intros n a IHa i IHi Hs c. simpl in Hs. apply andb_true_iff in Hs; destruct Hs as [Hs1 Hs2].
+        destruct (IHa Hs1 c) as [A1 A2]. destruct (IHi Hs2 c) as [I1 I2].
+        assert (E : sim2 eq (reval H1 call1 c (ESub n a i)) (reval H2 call2 c (ESub n a i))).
+        { rewrite (reval_unfold H1 call1 c (ESub n a i)), (reval_unfold H2 call2 c (ESub n a i)). cbn [reval_body].
+          destruct (negb (r_tgt c)); flags; auto2. }
+        split; [exact E|apply tv_default2; [reflexivity|exact E]].
+      - (* ECall *) intros n f IHf args IHargs Hs c. simpl in Hs. apply andb_true_iff in Hs; destruct Hs as [Hs1 Hs2].
+        destruct (IHf Hs1 c) as [F1 F2]. specialize (IHargs Hs2 (rc_str c)).
+        assert (HC : forall fv vs, sim2 eq (r_do_call call1 fv vs) (r_do_call call2 fv vs)).
+        { intros fv vs. unfold r_do_call. destruct (as_fun fv); [apply Hcalls|apply s2_prim]. }
+        assert (E : sim2 eq (reval H1 call1 c (ECall n f args)) (reval H2 call2 c (ECall n f args))).
+        { rewrite (reval_unfold H1 call1 c (ECall n f args)), (reval_unfold H2 call2 c (ECall n f args)). cbn [reval_body].
+          sb2 (exact F1). sb2 (exact IHargs).
+          match goal with |- context [r_do_call call1 ?fv ?vs] => pose proof (HC fv vs) end.
+          flags; auto2. }
+        split; [exact E|apply tv_default2; [reflexivity|exact E]].
+      - (* EList *) intros n es IHes Hs c. simpl in Hs. specialize (IHes Hs c).
+        assert (E : sim2 eq (reval H1 call1 c (EList n es)) (reval H2 call2 c (EList n es))).
+        { rewrite (reval_unfold H1 call1 c (EList n es)), (reval_unfold H2 call2 c (EList n es)). cbn [reval_body].
+          destruct (negb (r_tgt c)); flags; auto2. }
+        split; [exact E|apply tv_default2; [reflexivity|exact E]].
+      - (* ETuple *) intros n es IHes Hs c. simpl in Hs. specialize (IHes Hs c).
+        assert (HT : forall vs, meq (prim_total (p_tuple_of_list (mkl vs))) (prim_total (p_mktuple vs))).
+        { intros vs. apply (tuple_meq mkl tuple_of_list_spec). }
+        assert (E : sim2 eq (reval H1 call1 c (ETuple n es)) (reval H2 call2 c (ETuple n es))).
+        { rewrite (reval_unfold H1 call1 c (ETuple n es)), (reval_unfold H2 call2 c (ETuple n es)). cbn [reval_body].
+          sb2 (exact IHes). destruct (negb (r_tgt c)); flags; hs;
+            try (eapply sim2_meq_l; [apply bind_cong; [apply HT|intros ?; apply meq_refl]|]);
+            try (eapply sim2_meq_r; [apply bind_cong; [apply HT|intros ?; apply meq_refl]|]); auto2. }
+        split; [exact E|apply tv_default2; [reflexivity|exact E]].
+      - (* Enil *) intros _ c. apply sim2_ret. reflexivity.
+      - (* Econs *) intros e IHe r IHr Hs c. simpl in Hs. apply andb_true_iff in Hs; destruct Hs as [Hs1 Hs2].
+        destruct (IHe Hs1 c) as [E1 E2]. specialize (IHr Hs2 c). rewrite (reval_list_unfold H1 call1), (reval_list_unfold H2 call2).
+        auto2.
+      - (* Cnil *) intros _ c n on1 on2 ann first l _. apply sim2_ret. reflexivity.
+      - (* Ccons *) intros o e IHe r IHr Hs c n on1 on2 ann first l Hon. simpl in Hs. apply andb_true_iff in Hs; destruct Hs as [Hs1 Hs2].
+        destruct (IHe Hs1 c) as [E1 E2]. specialize (IHr Hs2 c).
+        rewrite (reval_cmps_unfold H1 call1), (reval_cmps_unfold H2 call2).
+        assert (Hrest : on1 = on2 \/ links_h r = false).
+        { destruct Hon as [->|L]; [left; reflexivity|]. cbn [links_h] in L. apply orb_false_iff in L. right. exact (proj2 L). }
+        assert (Hleaf : on1 = on2 \/ String.eqb (snake (cmpop_cls o)) h = false).
+        { destruct Hon as [->|L]; [left; reflexivity|]. cbn [links_h] in L. apply orb_false_iff in L. right. exact (proj1 L). }
+        sb2 (exact E1). hs. sb2 (apply s2_prim).
+        assert (Hv : sim2 eq (if on1 then
+                                bind (ev "operation" n [AS (cmpop_cls o); AL [AV first; AV b]; AV b0]) (fun _ =>
+                                bind (ev "comparison" n [AV l; AS (cmpop_cls o); AV b; AV b0]) (fun hi =>
+                                bind (ev (snake (cmpop_cls o)) n [AV l; AV b; AV b0]) (fun lo => ret (sel3 lo hi b0))))
+                              else ret b0)
+                             (if on2 then
+                                bind (ev "operation" n [AS (cmpop_cls o); AL [AV first; AV b]; AV b0]) (fun _ =>
+                                bind (ev "comparison" n [AV l; AS (cmpop_cls o); AV b; AV b0]) (fun hi =>
+                                bind (ev (snake (cmpop_cls o)) n [AV l; AV b; AV b0]) (fun lo => ret (sel3 lo hi b0))))
+                              else ret b0)).
+        { destruct Hleaf as [->|Hl].
+          - destruct on2; auto2.
+          - destruct on1, on2; hs; try (eapply sim2_hquiet_l; [apply hquiet_ev; exact Hl|]; cbv beta);
+              try (eapply sim2_hquiet_r; [apply hquiet_ev; exact Hl|]; cbv beta); auto2. }
+        sb2 (exact Hv). destruct r as [|o2 e2 r2]; [fin|]. sb2 (apply s2_truth).
+        match goal with |- sim2 _ (if ?bb then _ else _) _ => destruct bb end; [apply IHr; exact Hrest|fin].
+    Qed.
+
+    Lemma plain_sim2 :
+      (forall e, src_e e = true -> sim2 eq (eval call1 e) (eval call2 e) /\ sim2 eq (eval_test call1 e) (eval_test call2 e))
+      /\ (forall es, src_es es = true -> sim2 eq (eval_list call1 es) (eval_list call2 es))
+      /\ (forall r, src_c r = true -> forall l, sim2 eq (eval_cmps call1 l r) (eval_cmps call2 l r))
+      /\ (forall r : rcmps, True).
+    Proof.
+      assert (Hdef : forall e, sim2 eq (eval call1 e) (eval call2 e) ->
+                sim2 eq (bind (eval call1 e) (fun v => truth v)) (bind (eval call2 e) (fun v => truth v))).
+      { intros e E. sb2 (exact E). apply s2_truth. }
+      apply expr_all_ind; try (intros; discriminate); try (intros; exact I).
+      - intros n k _. split; [rewrite !eval_unfold; apply sim2_ret; reflexivity|].
+        rewrite (eval_test_unfold call1), (eval_test_unfold call2). apply Hdef. rewrite !eval_unfold; apply sim2_ret; reflexivity.
+      - intros n x b _. split; [rewrite !eval_unfold; apply s2_lookup|].
+        rewrite (eval_test_unfold call1), (eval_test_unfold call2). apply Hdef. rewrite !eval_unfold; apply s2_lookup.
+      - intros n o a IHa Hs. simpl in Hs. destruct (IHa Hs) as [A1 A2].
+        assert (E : sim2 eq (eval call1 (EUn n o a)) (eval call2 (EUn n o a))).
+        { rewrite (eval_unfold call1), (eval_unfold call2). cbn [eval_body]. destruct o; try (sb2 (exact A1); apply s2_prim).
+          sb2 (exact A2). apply sim2_ret. reflexivity. }
+        split; [exact E|]. rewrite (eval_test_unfold call1), (eval_test_unfold call2). destruct o; try (apply Hdef; exact E).
+        sb2 (exact A2). apply sim2_ret. reflexivity.
+      - intros n o a IHa b IHb Hs. simpl in Hs. apply andb_true_iff in Hs; destruct Hs as [Hs1 Hs2].
+        destruct (IHa Hs1) as [A1 A2]. destruct (IHb Hs2) as [B1 B2].
+        assert (E : sim2 eq (eval call1 (EBin n o a b)) (eval call2 (EBin n o a b))).
+        { rewrite (eval_unfold call1), (eval_unfold call2). cbn [eval_body]. sb2 (exact A1). sb2 (exact B1). apply s2_prim. }
+        split; [exact E|]. rewrite (eval_test_unfold call1), (eval_test_unfold call2). apply Hdef; exact E.
+      - intros n o a IHa b IHb Hs. simpl in Hs. apply andb_true_iff in Hs; destruct Hs as [Hs1 Hs2].
+        destruct (IHa Hs1) as [A1 A2]. destruct (IHb Hs2) as [B1 B2]. split.
+        + rewrite (eval_unfold call1), (eval_unfold call2). cbn [eval_body]. sb2 (exact A1). sb2 (apply s2_truth).
+          destruct (match o with BAnd => b1 | BOr => negb b1 end); [exact B1|apply sim2_ret; reflexivity].
+        + rewrite (eval_test_unfold call1), (eval_test_unfold call2). destruct o; sb2 (exact A2); destruct b0; try assumption; apply sim2_ret; reflexivity.
+      - intros n a IHa r IHr Hs. simpl in Hs. apply andb_true_iff in Hs; destruct Hs as [Hs1 Hs2].
+        destruct (IHa Hs1) as [A1 A2]. specialize (IHr Hs2).
+        assert (E : sim2 eq (eval call1 (ECmp n a r)) (eval call2 (ECmp n a r))).
+        { rewrite (eval_unfold call1), (eval_unfold call2). cbn [eval_body]. sb2 (exact A1). apply IHr. }
+        split; [exact E|]. rewrite (eval_test_unfold call1), (eval_test_unfold call2). apply Hdef; exact E.
+      - intros n t IHt a IHa b IHb Hs. simpl in Hs. apply andb_true_iff in Hs; destruct Hs as [Hs12 Hs3].
+        apply andb_true_iff in Hs12; destruct Hs12 as [Hs1 Hs2].
+        destruct (IHt Hs1) as [T1 T2]. destruct (IHa Hs2) as [A1 A2]. destruct (IHb Hs3) as [B1 B2]. split.
+        + rewrite (eval_unfold call1), (eval_unfold call2). cbn [eval_body]. sb2 (exact T2). destruct b0; assumption.
+        + rewrite (eval_test_unfold call1), (eval_test_unfold call2). sb2 (exact T2). destruct b0; assumption.
+      - intros n a IHa x Hs. simpl in Hs. destruct (IHa Hs) as [A1 A2].
+        assert (E : sim2 eq (eval call1 (EAttr n a x)) (eval call2 (EAttr n a x))).
+        { rewrite (eval_unfold call1), (eval_unfold call2). cbn [eval_body]. sb2 (exact A1). apply s2_prim. }
+        split; [exact E|]. rewrite (eval_test_unfold call1), (eval_test_unfold call2). apply Hdef; exact E.
+      - intros n a IHa i IHi Hs. simpl in Hs. apply andb_true_iff in Hs; destruct Hs as [Hs1 Hs2].
+        destruct (IHa Hs1) as [A1 A2]. destruct (IHi Hs2) as [I1 I2].
+        assert (E : sim2 eq (eval call1 (ESub n a i)) (eval call2 (ESub n a i))).
+        { rewrite (eval_unfold call1), (eval_unfold call2). cbn [eval_body]. sb2 (exact A1). sb2 (exact I1). apply s2_prim. }
+        split; [exact E|]. rewrite (eval_test_unfold call1), (eval_test_unfold call2). apply Hdef; exact E.
+      - intros n f IHf args IHargs Hs. simpl in Hs. apply andb_true_iff in Hs; destruct Hs as [Hs1 Hs2].
+        destruct (IHf Hs1) as [F1 F2]. specialize (IHargs Hs2).
+        assert (E : sim2 eq (eval call1 (ECall n f args)) (eval call2 (ECall n f args))).
+        { rewrite (eval_unfold call1), (eval_unfold call2). cbn [eval_body]. sb2 (exact F1). sb2 (exact IHargs).
+          unfold do_call. destruct (as_fun b); [apply Hcalls|apply s2_prim]. }
+        split; [exact E|]. rewrite (eval_test_unfold call1), (eval_test_unfold call2). apply Hdef; exact E.
+      - intros n es IHes Hs. simpl in Hs. specialize (IHes Hs).
+        assert (E : sim2 eq (eval call1 (EList n es)) (eval call2 (EList n es))).
+        { rewrite (eval_unfold call1), (eval_unfold call2). cbn [eval_body]. sb2 (exact IHes). apply s2_prim_total. }
+        split; [exact E|]. rewrite (eval_test_unfold call1), (eval_test_unfold call2). apply Hdef; exact E.
+      - intros n es IHes Hs. simpl in Hs. specialize (IHes Hs).
+        assert (E : sim2 eq (eval call1 (ETuple n es)) (eval call2 (ETuple n es))).
+        { rewrite (eval_unfold call1), (eval_unfold call2). cbn [eval_body]. sb2 (exact IHes). apply s2_prim_total. }
+        split; [exact E|]. rewrite (eval_test_unfold call1), (eval_test_unfold call2). apply Hdef; exact E.
+      - intros _. apply sim2_ret. reflexivity.
+      - intros e IHe r IHr Hs. simpl in Hs. apply andb_true_iff in Hs; destruct Hs as [Hs1 Hs2].
+        destruct (IHe Hs1) as [E1 E2]. specialize (IHr Hs2). rewrite (eval_list_unfold call1), (eval_list_unfold call2).
+        sb2 (exact E1). sb2 (exact IHr). apply sim2_ret. reflexivity.
+      - intros _ l. apply sim2_ret. reflexivity.
+      - intros o e IHe r IHr Hs l. simpl in Hs. apply andb_true_iff in Hs; destruct Hs as [Hs1 Hs2].
+        destruct (IHe Hs1) as [E1 E2]. specialize (IHr Hs2). rewrite (eval_cmps_unfold call1), (eval_cmps_unfold call2).
+        destruct r as [|o2 e2 r2]; [sb2 (exact E1); apply s2_prim|].
+        sb2 (exact E1). sb2 (apply s2_prim). sb2 (apply s2_truth).
+        match goal with |- sim2 _ _ (if ?bb then _ else _) => destruct bb end; [apply IHr|apply sim2_ret; reflexivity].
+    Qed.
+
+
+
+    Notation HE := (proj1 hi_expr).
+    Notation PE2 := (proj1 plain_sim2).
+
+    (* guard of the theorem (a place where the reference semantics, like the implementation, lets another hook influence
+       what happens around an event): handlers carry neither type nor name unless both selections agree on the exception
+       hook (its payload evaluates the type expression once more) *)
+    Definition exc_agree : bool := Bool.eqb (cov H1 "exception") (cov H2 "exception").
+    Fixpoint g8_s (s : stmt) : bool :=
+      match s with
+      | SIf _ _ b o | SWhile _ _ b o | SFor _ _ _ b o => g8_ss b && g8_ss o
+      | STry _ b hs o f => g8_ss b && g8_hs hs && g8_ss o && g8_ss f
+      | _ => true
+      end
+    with g8_ss (ss : stmts) : bool := match ss with Snil => true | Scons s r => g8_s s && g8_ss r end
+    with g8_hs (hs : handlers) : bool :=
+      match hs with
+      | Hnil => true
+      | Hcons ty name b r => (exc_agree || bare_handler ty name) && g8_ss b && g8_hs r
+      end.
+
+    Lemma ropt2 c o : src_oe o = true -> sim2 eq (reval_opt H1 call1 c o) (reval_opt H2 call2 c o).
+    Proof.
+      destruct o as [e|]; intros Hs; [|apply sim2_ret; reflexivity]. simpl in Hs. unfold reval_opt.
+      sb2 (exact (proj1 (HE e Hs c))). apply sim2_ret. reflexivity.
+    Qed.
+    Lemma store2 t v : src_t t = true -> sim2 eq (rstore H1 call1 t v) (rstore H2 call2 t v).
+    Proof.
+      destruct t as [x|n e x|n e i]; intros Hs; simpl in Hs; cbn [rstore]; [apply s2_assign| |].
+      - sb2 (exact (proj1 (HE e Hs rc_tgt))). apply s2_prim.
+      - apply andb_true_iff in Hs; destruct Hs as [Hs1 Hs2].
+        sb2 (exact (proj1 (HE e Hs1 rc_tgt))). sb2 (exact (proj1 (HE i Hs2 rc_tgt))). apply s2_prim.
+    Qed.
+    Lemma store_all2 ts v : forallb src_t ts = true -> sim2 eq (rstore_all H1 call1 ts v) (rstore_all H2 call2 ts v).
+    Proof.
+      induction ts as [|t r IH]; intros Hs; simpl in Hs; cbn [rstore_all]; [apply sim2_ret; reflexivity|].
+      apply andb_true_iff in Hs; destruct Hs as [Hs1 Hs2]. sb2 (exact (store2 t v Hs1)). apply IH; exact Hs2.
+    Qed.
+
+    Ltac basic ::= first [ eassumption | apply s2_prim | apply s2_prim_total | apply s2_truth | apply s2_lookup | apply rnot2
+                         | apply s2_assign | apply s2_cur_exc | apply s2_raise | apply s2_raise_builtin | apply s2_push_exc | apply s2_pop_exc
+                         | apply s2_unbind | apply s2_stuck ].
+
+    (* a test in statement position *)
+    Lemma stmt_test2 c leaf n : src_e c = true ->
+      sim2 eq (if cov H1 leaf then
+                 bind (test_value H1 call1 rc0 c) (fun vt =>
+                 bind (announce true true n) (fun _ =>
+                 bind (ev "enter_control_flow" n [AV (fst vt)]) (fun hi =>
+                 bind (ev leaf n [AV (fst vt)]) (fun lo => decide vt lo hi))))
+               else bind (reval_tv H1 call1 rc0 c) (fun ct => ret (snd ct)))
+              (if cov H2 leaf then
+                 bind (test_value H2 call2 rc0 c) (fun vt =>
+                 bind (announce true true n) (fun _ =>
+                 bind (ev "enter_control_flow" n [AV (fst vt)]) (fun hi =>
+                 bind (ev leaf n [AV (fst vt)]) (fun lo => decide vt lo hi))))
+               else bind (reval_tv H2 call2 rc0 c) (fun ct => ret (snd ct))).
+    Proof.
+      intros Hs. destruct (HE c Hs rc0) as [T1 T2]. unfold test_value, decide.
+      destruct (jumpy c) eqn:J; flags; tvx J; auto2.
+    Qed.
+
+    Lemma assign_name_plain o : get_name (snake (binop_cls o ++ "Assign")) = snake (binop_cls o ++ "Assign").
+    Proof. destruct o; vm_compute; reflexivity. Qed.
+
+    Lemma raug2 on1 on2 n o l r v :
+      (on1 = on2 \/ (String.eqb "write" h = false /\ String.eqb (get_name (snake (binop_cls o ++ "Assign"))) h = false)) ->
+      sim2 eq (raug_events on1 n o l r v) (raug_events on2 n o l r v).
+    Proof.
+      Transparent raug_events. unfold raug_events. Opaque raug_events. intros [->|[Hw Ha]].
+      - destruct on2; auto2.
+      - destruct on1, on2; hs;
+          repeat first [ eapply sim2_hquiet_l; [apply hquiet_ev; first [exact Hw|exact Ha]|]; cbv beta; hs
+                       | eapply sim2_hquiet_r; [apply hquiet_ev; first [exact Hw|exact Ha]|]; cbv beta; hs ]; auto2.
+    Qed.
+
+    Ltac loop_tail2 IHj :=
+      match goal with
+      | Hr : rres _ ?ra ?rb |- _ =>
+        destruct ra as [[]| | | | | |], rb; cbn [rres] in Hr; try contradiction; subst;
+        try (apply sim2_ret; reflexivity); try exact IHj; try (apply s2_reraise; cbn; auto)
+      end.
+
+    Theorem hi_stmt :
+      (forall s, src_s s = true -> g8_s s = true -> forall k, sim2 eq (rexec H1 call1 bound k s) (rexec H2 call2 bound k s))
+      /\ (forall ss, src_ss ss = true -> g8_ss ss = true -> forall k, sim2 eq (rexec_list H1 call1 bound k ss) (rexec_list H2 call2 bound k ss))
+      /\ (forall hs, src_hs hs = true -> g8_hs hs = true -> forall k tryn e,
+            sim2 eq (rexec_handlers H1 call1 bound k tryn e hs) (rexec_handlers H2 call2 bound k tryn e hs)).
+    Proof.
+      apply stmt_all_ind.
+      - (* SExpr *) intros e Hs _ k. simpl in Hs. Transparent rexec. cbn [rexec]. Opaque rexec.
+        sb2 (exact (proj1 (HE e Hs rc0))). fin.
+      - (* SAssign *) intros n ts e Hs _ k. simpl in Hs. apply andb_true_iff in Hs; destruct Hs as [Hs1 Hs2].
+        Transparent rexec. cbn [rexec]. Opaque rexec.
+        sb2 (exact (proj1 (HE e Hs2 (rc_str rc0)))). flags; hs; try same_ev; hs; apply store_all2; assumption.
+      - (* SAug *) intros n t o e Hs _ k. simpl in Hs. apply andb_true_iff in Hs; destruct Hs as [Hs1 Hs2].
+        Transparent rexec. cbn [rexec]. Opaque rexec.
+        assert (Hon : forall l r v, sim2 eq (raug_events (cov H1 "write" || cov H1 (snake (binop_cls o ++ "Assign"))) n o l r v)
+                                          (raug_events (cov H2 "write" || cov H2 (snake (binop_cls o ++ "Assign"))) n o l r v)).
+        { intros l r v. apply raug2.
+          destruct (cov H1 "write") eqn:W1, (cov H2 "write") eqn:W2, (cov H1 (snake (binop_cls o ++ "Assign"))) eqn:A1,
+                   (cov H2 (snake (binop_cls o ++ "Assign"))) eqn:A2; cbn [orb]; try (left; reflexivity); right; rewrite assign_name_plain; split; nh. }
+        destruct t as [x|tn be x|tn be ie]; simpl in Hs1.
+        + sb2 (apply s2_lookup). sb2 (exact (proj1 (HE e Hs2 (rc_str rc0)))). sb2 (apply s2_prim). sb2 (apply Hon). apply s2_assign.
+        + sb2 (exact (proj1 (PE2 be Hs1))). sb2 (apply s2_prim). sb2 (exact (proj1 (HE e Hs2 (rc_str rc0)))). sb2 (apply s2_prim).
+          sb2 (apply Hon). apply s2_prim.
+        + apply andb_true_iff in Hs1; destruct Hs1 as [Hb Hi].
+          sb2 (exact (proj1 (PE2 be Hb))). sb2 (exact (proj1 (PE2 ie Hi))). sb2 (apply s2_prim).
+          sb2 (exact (proj1 (HE e Hs2 (rc_str rc0)))). sb2 (apply s2_prim). sb2 (apply Hon). apply s2_prim.
+      - (* SIf *) intros n c body IHb orelse IHo Hs Hk k. simpl in Hs, Hk.
+        apply andb_true_iff in Hs; destruct Hs as [Hs12 Hs3]. apply andb_true_iff in Hs12; destruct Hs12 as [Hs1 Hs2].
+        apply andb_true_iff in Hk; destruct Hk as [Hk1 Hk2].
+        rewrite (rexec_SIf H1 call1), (rexec_SIf H2 call2). sb2 (apply (stmt_test2 c "enter_if" n Hs1)).
+        sb2 (destruct b; [apply IHb|apply IHo]; assumption). unfold exit_event. flags; auto2.
+      - (* SWhile *) intros n c body IHb orelse IHo Hs Hk k. simpl in Hs, Hk.
+        apply andb_true_iff in Hs; destruct Hs as [Hs12 Hs3]. apply andb_true_iff in Hs12; destruct Hs12 as [Hs1 Hs2].
+        apply andb_true_iff in Hk; destruct Hk as [Hk1 Hk2].
+        rewrite (rexec_SWhile H1 call1), (rexec_SWhile H2 call2).
+        assert (Hloop : forall j, sim2 eq (rwloop H1 call1 bound k n c body orelse j) (rwloop H2 call2 bound k n c body orelse j)); [|apply Hloop].
+        induction j as [|j IHj]; [apply s2_const; exact I|]. cbn [rwloop].
+        sb2 (apply (stmt_test2 c "enter_while" n Hs1)). destruct b.
+        + sb2 (apply s2_catch; apply IHb; assumption). loop_tail2 IHj.
+        + sb2 (apply IHo; assumption). flags; auto2.
+      - (* SFor *) intros n x it body IHb orelse IHo Hs Hk k. simpl in Hs, Hk.
+        apply andb_true_iff in Hs; destruct Hs as [Hs12 Hs3]. apply andb_true_iff in Hs12; destruct Hs12 as [Hs1 Hs2].
+        apply andb_true_iff in Hk; destruct Hk as [Hk1 Hk2].
+        rewrite (rexec_SFor H1 call1), (rexec_SFor H2 call2).
+        sb2 (exact (proj1 (HE it Hs1 rc0))). sb2 (apply s2_prim).
+        assert (Hloop : forall j, sim2 eq (rfloop H1 call1 bound k n x b0 b body orelse j) (rfloop H2 call2 bound k n x b0 b body orelse j)); [|apply Hloop].
+        induction j as [|j IHj]; [apply s2_const; exact I|]. cbn [rfloop]. unfold for_exit, rfor_answer.
+        pose proof (IHo Hs3 Hk2 k) as HO.
+        sb2 (apply s2_prim). destruct b1 as [v|]; flags; auto2;
+          try (sb2 (apply s2_catch; apply IHb; assumption); loop_tail2 IHj).
+      - (* SBreak *) intros n _ _ k. Transparent rexec. cbn [rexec]. Opaque rexec. unfold rbrk.
+        destruct (r_loop k) as [[l ty]|]; [|apply s2_const; exact I].
+        destruct ty; flags; hs; try same_ev; hs; cbn [sel2];
+          try (eapply sim2_meq_l; [apply bind_cong; [apply (truth_true truth_bool)|intros ?; apply meq_refl]|]);
+          try (eapply sim2_meq_r; [apply bind_cong; [apply (truth_true truth_bool)|intros ?; apply meq_refl]|]);
+          stop2; apply s2_const; exact I.
+      - (* SContinue *) intros n _ _ k. Transparent rexec. cbn [rexec]. Opaque rexec. unfold rbrk.
+        destruct (r_loop k) as [[l ty]|]; [|apply s2_const; exact I].
+        destruct ty; flags; hs; try same_ev; hs; cbn [sel2];
+          try (eapply sim2_meq_l; [apply bind_cong; [apply (truth_true truth_bool)|intros ?; apply meq_refl]|]);
+          try (eapply sim2_meq_r; [apply bind_cong; [apply (truth_true truth_bool)|intros ?; apply meq_refl]|]);
+          stop2; apply s2_const; exact I.
+      - (* SPass *) intros _ _ k. apply sim2_ret. reflexivity.
+      - (* SAssert *) intros n c m Hs _ k. simpl in Hs. apply andb_true_iff in Hs; destruct Hs as [Hs1 Hs2].
+        Transparent rexec. cbn [rexec]. Opaque rexec.
+        destruct (HE c Hs1 rc0) as [T1 T2]. pose proof (ropt2 rc0 m Hs2) as HM.
+        unfold test_value, decide. destruct (jumpy c) eqn:J; flags; tvx J; auto2.
+      - (* SRaise *) intros n ex ca Hs _ k. simpl in Hs. apply andb_true_iff in Hs; destruct Hs as [Hs1 Hs2].
+        Transparent rexec. cbn [rexec]. Opaque rexec.
+        sb2 (exact (ropt2 rc0 ex Hs1)). sb2 (exact (ropt2 rc0 ca Hs2)).
+        flags; hs; try same_ev; hs; (destruct b as [e0|]; [|auto2; match goal with x : option val |- _ => destruct x end; auto2]);
+          sb2 (apply s2_prim_total); (destruct b0 as [cv|]; auto2).
+      - (* STry *) intros n body IHb hs0 IHh orelse IHo final IHf Hs Hk k. simpl in Hs, Hk.
+        apply andb_true_iff in Hs; destruct Hs as [Hs123 Hs4]. apply andb_true_iff in Hs123; destruct Hs123 as [Hs12 Hs3].
+        apply andb_true_iff in Hs12; destruct Hs12 as [Hs1 Hs2].
+        apply andb_true_iff in Hk; destruct Hk as [Hk123 Hk4]. apply andb_true_iff in Hk123; destruct Hk123 as [Hk12 Hk3].
+        apply andb_true_iff in Hk12; destruct Hk12 as [Hk1 Hk2].
+        rewrite (rexec_STry H1 call1), (rexec_STry H2 call2).
+        sb2 (apply s2_catch; flags; hs; try same_ev; hs; apply IHb; assumption).
+        sb2 (apply s2_catch;
+             match goal with Hr : rres _ ?ra ?rb |- _ =>
+               destruct ra as [[]|e1| | | | |], rb; cbn [rres] in Hr; try contradiction; subst;
+               [ sb2 (apply IHo; assumption); flags; auto2
+               | apply IHh; assumption
+               | apply s2_reraise; cbn; auto .. ]
+             end).
+        sb2 (apply s2_catch; apply IHf; assumption).
+        match goal with Hr : rres _ ?ra ?rb |- sim2 _ (match ?ra with _ => _ end) _ =>
+          destruct ra as [[]| | | | | |], rb; cbn [rres] in Hr; try contradiction; subst; apply s2_reraise; cbn; auto end.
+      - (* SReturn *) intros n e Hs _ k. simpl in Hs.
+        Transparent rexec. cbn [rexec]. Opaque rexec.
+        sb2 (destruct e as [a|]; [exact (proj1 (HE a Hs rc0))|apply sim2_ret; reflexivity]).
+        destruct (r_fn k) as [[f name]|]; [|apply s2_const; reflexivity].
+        flags; hs; repeat (first [same_ev | (eapply sim2_bind; [apply sim2_notify|intros ? ? [? ?]; subst]); cbv beta]; hs); apply s2_const; reflexivity.
+      - (* SDef *) intros n fid name _ _ k. Transparent rexec. cbn [rexec]. Opaque rexec. apply s2_assign.
+      - (* Snil *) intros _ _ k. apply sim2_ret. reflexivity.
+      - (* Scons *) intros s0 IHs r IHr Hs Hk k. simpl in Hs, Hk.
+        apply andb_true_iff in Hs; destruct Hs as [Hs1 Hs2]. apply andb_true_iff in Hk; destruct Hk as [Hk1 Hk2].
+        rewrite !rexec_list_cons. sb2 (apply IHs; assumption). apply IHr; assumption.
+      - (* Hnil *) intros _ _ k tryn e. apply s2_raise.
+      - (* Hcons *) intros ty name body IHb rest IHr Hs Hk k tryn e. simpl in Hs, Hk.
+        apply andb_true_iff in Hs; destruct Hs as [Hs12 Hs3]. apply andb_true_iff in Hs12; destruct Hs12 as [Hs1 Hs2].
+        apply andb_true_iff in Hk; destruct Hk as [Hk12 Hk3]. apply andb_true_iff in Hk12; destruct Hk12 as [Hk1 Hk2].
+        rewrite (rexec_handlers_cons H1 call1), (rexec_handlers_cons H2 call2).
+        sb2 (exact (ropt2 rc0 ty Hs1)). sb2 (destruct b as [cls|]; [apply s2_prim|apply sim2_ret; reflexivity]).
+        destruct b0; [|apply IHr; assumption].
+        sb2 (destruct name; [apply s2_assign|apply sim2_ret; reflexivity]). sb2 (apply s2_push_exc).
+        eapply sim2_bind with (R := rres eq).
+        + apply s2_catch. unfold exc_agree in Hk1.
+          destruct (cov H1 "exception") eqn:C1, (cov H2 "exception") eqn:C2; cbn [Bool.eqb orb] in Hk1.
+          * pose proof (ropt2 rc0 ty Hs1) as HT. stop2. sb2 (exact HT). destruct name; hs; try (sb2 (apply s2_lookup); hs); same_ev; hs; apply IHb; assumption.
+          * unfold bare_handler in Hk1. apply andb_true_iff in Hk1; destruct Hk1 as [K1 K2].
+            destruct ty; [discriminate K1|]. destruct name; [discriminate K2|]. cbn [reval_opt]. hs. apply IHb; assumption.
+          * unfold bare_handler in Hk1. apply andb_true_iff in Hk1; destruct Hk1 as [K1 K2].
+            destruct ty; [discriminate K1|]. destruct name; [discriminate K2|]. cbn [reval_opt]. hs. apply IHb; assumption.
+          * hs. apply IHb; assumption.
+        + intros r1 r2 Hr. sb2 (apply s2_pop_exc). sb2 (destruct name; [apply s2_unbind|apply sim2_ret; reflexivity]).
+          apply s2_reraise. destruct r1 as [[]| | | | | |], r2; cbn [rres] in Hr; try contradiction; subst; cbn; auto.
+    Qed.
+  End HookIndependence.
+
+  Section HookIndependenceRun.
+    Variable h : string.
+    Hypothesis observing_all : Forall (observing earg) analyses.
+    Hypothesis h_leaf : mem_str h generic_names = false.
+    Variable mkl : list val -> val.
+    Hypothesis mklist_pure : forall l w0, p_mklist l w0 = (mkl l, w0).
+    Hypothesis tuple_of_list_spec : forall l w0, p_tuple_of_list (mkl l) w0 = p_mktuple l w0.
+    Hypothesis truth_bool : forall b w0, p_truth (p_const (KBool b)) w0 = (POk b, w0).
+    Variables H1 H2 : list string.
+    Hypothesis h_in1 : cov H1 h = true.
+    Hypothesis h_in2 : cov H2 h = true.
+    Variable funs : list fundef.
+    Definition fun_g8 (fd : fundef) : bool := src_ss (f_body fd) && g8_ss H1 H2 (f_body fd).
+    Hypothesis funs_g8 : forallb fun_g8 funs = true.
+
+    Lemma s2_push_frame fd args : sim2 h eq (push_frame fd args) (push_frame fd args).
+    Proof.
+      intros s1 s2 [Hb Hp]. pose proof Hb as [Hw [Hg [Hf He]]]. unfold push_frame.
+      destruct (Nat.eqb (length args) (length (f_params fd))).
+      - split; [reflexivity|]. split; [repeat split; cbn; congruence|exact Hp].
+      - apply (s2_raise_builtin h eq "TypeError" "wrong number of arguments" s1 s2 (conj Hb Hp)).
+    Qed.
+    Lemma s2_pop_frame : sim2 h eq pop_frame pop_frame.
+    Proof. intros s1 s2 [[Hw [Hg [Hf He]]] Hp]. split; [reflexivity|]. split; [repeat split; cbn; congruence|exact Hp]. Qed.
+
+    Ltac nh := first [ apply (gen_ne h h_leaf); reflexivity
+                     | eapply (cov_ne h H1); [exact h_in1|eassumption]
+                     | eapply (cov_ne h H2); [exact h_in2|eassumption] ].
+    Ltac hq1 := first [ apply hquiet_announce; assumption | apply hquiet_ret | apply hquiet_ev; [assumption|nh] | apply hquiet_notify; [assumption|nh] ].
+    Ltac stop2 := repeat match goal with
+      | |- sim2 _ _ (bind (bind ?m ?k) ?h0) _ => eapply sim2_meq_l; [apply bind_assoc|]; cbv beta
+      | |- sim2 _ _ (bind (ret ?a) ?k) _ => eapply sim2_meq_l; [apply bind_ret_l|]; cbv beta
+      | |- sim2 _ _ _ (bind (bind ?m ?k) ?h0) => eapply sim2_meq_r; [apply bind_assoc|]; cbv beta
+      | |- sim2 _ _ _ (bind (ret ?a) ?k) => eapply sim2_meq_r; [apply bind_ret_l|]; cbv beta
+      end.
+    Ltac hs := repeat (stop2; first [ (eapply sim2_hquiet_l; [hq1|]); cbv beta | (eapply sim2_hquiet_r; [hq1|]); cbv beta ]); stop2.
+    Ltac same_ev := (eapply sim2_bind; [first [apply s2_ev; assumption | apply sim2_notify; assumption]|intros ? ? [? ?]; subst]); cbv beta.
+    Ltac flags := repeat match goal with |- context [cov ?Hs ?x] => let E := fresh "C" in destruct (cov Hs x) eqn:E end; cbn [andb orb negb].
+
+    Theorem hi_fun : forall fuel fid args, sim2 h eq (rrun_fun funs H1 fuel fid args) (rrun_fun funs H2 fuel fid args).
+    Proof.
+      induction fuel as [|f IH]; intros fid args; [apply s2_const; exact I|].
+      cbn [rrun_fun]. destruct (nth_error funs fid) as [fd|] eqn:E; [|apply s2_stuck].
+      assert (Hfd : fun_g8 fd = true).
+      { apply nth_error_In in E. rewrite forallb_forall in funs_g8. apply funs_g8; exact E. }
+      unfold fun_g8 in Hfd. apply andb_true_iff in Hfd; destruct Hfd as [Hs Hk]. cbv zeta.
+      eapply sim2_bind; [apply s2_push_frame|intros ? ? _].
+      eapply sim2_bind with (R := rres eq).
+      - apply s2_catch.
+        assert (HB : sim2 h eq (rexec_list H1 (rrun_fun funs H1 f) f {| r_loop := None; r_fn := Some (f_nid fd, f_name fd) |} (f_body fd))
+                               (rexec_list H2 (rrun_fun funs H2 f) f {| r_loop := None; r_fn := Some (f_nid fd, f_name fd) |} (f_body fd))).
+        { eapply hi_stmt; eauto. }
+        flags; hs; repeat (same_ev; hs); (eapply sim2_bind; [exact HB|intros ? ? _]); hs; repeat (same_ev; hs); apply sim2_ret; reflexivity.
+      - intros r1 r2 Hr. eapply sim2_bind; [apply s2_pop_frame|intros ? ? _].
+        destruct r1 as [[]|e| | |v| |y], r2; cbn [rres] in Hr; try contradiction; subst;
+          first [apply sim2_ret; reflexivity | apply s2_stuck | apply s2_const; cbn; auto].
+    Qed.
+
+    Theorem hi_module fuel w1 w2 main :
+      src_ss main = true -> g8_ss H1 H2 main = true ->
+      sim2 h eq (rrun_module funs H1 fuel w1 main) (rrun_module funs H2 fuel w2 main).
+    Proof.
+      intros Hs Hk. unfold rrun_module.
+      assert (HB : sim2 h eq (rexec_list H1 (rrun_fun funs H1 fuel) fuel {| r_loop := None; r_fn := None |} main)
+                             (rexec_list H2 (rrun_fun funs H2 fuel) fuel {| r_loop := None; r_fn := None |} main)).
+      { eapply hi_stmt; eauto. intros; apply hi_fun. }
+      destruct w1, w2; hs; (eapply sim2_bind with (R := rres eq); [apply s2_catch; exact HB|]);
+        intros r1 r2 Hr; (destruct r1 as [[]|e| | |v| |y], r2; cbn [rres] in Hr; try contradiction; subst; cbn [andb]);
+        try (destruct (p_is_exception e0)); hs; first [apply s2_raise | apply s2_reraise; cbn; auto].
+    Qed.
+  End HookIndependenceRun.
+
 
 
 End Sem.
